@@ -333,6 +333,13 @@ def _config_for_facts(tree):
         call_site_wins = False
     else:
         raise Unrecognised("Partial.__call__ body changed: " + " | ".join(ct)[:400])
+    # ---- Partial[target]: always derived from the target itself, through the (callable-keyed) cache of config_for
+    gi = find_def(tree, "__getitem__", cls="_Partial")
+    want = ["config_class = config_for(target)", "config_class.__module__ = __name__",
+            "_autogenerated_config_classes[config_class.__qualname__] = config_class", "return config_class"]
+    got = [unparse(x) for x in clean(gi.body)]
+    if [a.arg for a in gi.args.args] != ["cls", "target"] or got != want:
+        raise Unrecognised("_Partial.__getitem__ body changed: " + " | ".join(got)[:400])
     return cached, skips, [k for k, _ in req_kws], [k for k, _ in opt_kws], req_where == "front", call_site_wins
 
 
